@@ -6,10 +6,10 @@ harness("h_c16", ["harness/h_c16.cc"], libs=("csg",))
 PROPS["C16"] = dict(
     repo_targets=("votca_tools", "votca_csg"),
     parts=[rc("h_c16", quick=dict(cases=14000, procs=8, args=["--enum", "5"], budget_s=900),
-              thorough=dict(cases=600000, procs=16, args=["--enum", "7"], budget_s=2400))],
+              thorough=dict(cases=240000, procs=16, args=["--enum", "7"], budget_s=3000))],
     rule=("One graph generator feeds six subs. EXHAUSTIVE: every labelled simple graph on 1..5 vertices (quick, 1099 graphs per sub) / 1..6 "
-          "vertices plus every labelled 7-vertex graph with non-increasing degree sequence (thorough; >= 1 labelling of each of the 1044 "
-          "isomorphism classes), each with ids from a sparse pool (0..10^6), shuffled edge order/orientation, three attribute modes and a "
+          "vertices (thorough, 33867 per sub) plus, for equiv/reduce/breakinto, every labelled 7-vertex graph with non-increasing degree "
+          "sequence (16758 graphs, >= 1 labelling of each of the 1044 isomorphism classes), each with ids from a sparse pool (0..10^6), shuffled edge order/orientation, three attribute modes and a "
           "pseudo-random relabelling derived from the graph index. GENERATED: 1..4 components drawn from chain, ring, star, random tree, fused "
           "rings (shared edge), theta graphs (2..4 parallel chains between two junctions, equal lengths allowed), cacti/spiro rings with tails, "
           "ring with tails, complete K2..K6, G(m,p), 2xk ladders, isolated vertices; up to 40 (24 for bfs/single/equiv) vertices growing with "
